@@ -275,7 +275,7 @@ def c_entity(e):
     if k == "proc":
         return f"(EProc {coq_str(e[1])})"
     if k == "var":
-        return f"(EVar {coq_str(e[1])} {coq_bool(e[2])})"
+        return f"(EVar {coq_str(e[1])} {coq_bool(e[2])} {coq_bool(e[3] if len(e) > 3 else False)})"
     return f"(EType {coq_str(e[1])})"
 
 
@@ -295,7 +295,8 @@ def c_symtab(tb):
 # spellings that overlap between user procedures, arrays, intrinsics and statement keywords
 PROC_NAMES = ["f", "g", "sum2", "isum", "sizes", "iff", "wait_for", "compute", "solve", "init", "getval",
               "mysize", "maxval2", "callme", "ifx", "printer", "opener", "reader", "casex", "whiles"]
-ARRAY_NAMES = ["arr", "vec", "sums", "size_v", "ifs", "mat", "buf", "whr", "printv", "calls", "writes", "abs2"]
+ARRAY_NAMES = ["arr", "vec", "sums", "size_v", "ifs", "mat", "buf", "whr", "printv", "calls", "writes", "abs2",
+               "count", "index"]      # the last two: arrays spelled like INTRINSICS entries (candidates that resolve to variables)
 SCALAR_NAMES = ["i", "j", "k", "n", "m", "x", "y", "tmp", "ios", "total"]
 OBJ_NAMES = ["obj", "p", "q", "self_o"]
 INTRINSIC_FUNCS = ["size", "sum", "abs", "max", "min", "mod", "maxval", "int", "real", "sqrt", "len", "trim",
@@ -304,7 +305,7 @@ INTRINSIC_NAMED_PROCS = ["wait", "system", "flush", "rank", "time", "exit"]   # 
 ASSOC_NAMES = ["aa", "bb", "cc", "sel"]
 # the project's own external procedures (top level of a file), referenced through EXTERNAL declarations
 EXTERNAL_NAMES = ["ext_area", "ext_vol", "ext_report", "xsum", "ext_init", "callext"]
-EXTERNAL_FORMS_FUNC = ["attr", "attr", "pair", "pair", "pair_colon", "untyped"]
+EXTERNAL_FORMS_FUNC = ["attr", "attr", "pair", "pair", "pair_colon", "untyped", "typed_only", "typed_only"]
 EXTERNAL_FORMS_SUB = ["untyped", "untyped_colon"]
 LIT_BODIES = ["", "abc", "call q(1)", "x = g(2)", "it's", 'say "f(1)"', "(a,i0)", "if (f(x)) then", "obj%run()",
               "a(1)%b(2)", "100 format (i5)", "go to (1,2)"]
@@ -826,7 +827,7 @@ def gen_project(rng, knobs=None):
     nmod = rng.choice([1, 1, 2])
     pnames = rng.sample(PROC_NAMES, rng.randint(3, 7))
     if knobs.get("intrinsic_named"):
-        pnames += rng.sample(INTRINSIC_NAMED_PROCS, 1)
+        pnames = pnames[:4] + rng.sample(INTRINSIC_NAMED_PROCS, 2)     # recorded like any other since the repair
     mods = []
     for mi in range(nmod):
         mine = pnames[mi::nmod]
@@ -1115,6 +1116,8 @@ def render_unit(rng, proj, mod, unit, host, ind, knobs):
             out += [f"{ind}  integer {n}", f"{ind}  external {n}"]
         elif form == "pair_colon":
             out += [f"{ind}  integer :: {n}", f"{ind}  EXTERNAL :: {n}"]
+        elif form == "typed_only":      # only the result type is declared: still a function, a scalar cannot be indexed
+            out.append(f"{ind}  integer :: {n}")
         elif form == "untyped_colon":
             out.append(f"{ind}  external :: {n}")
         else:
